@@ -311,6 +311,26 @@ impl io::Write for ShortSink {
     fn write(&mut self, buf: &[u8]) -> io::Result<usize> {
         Ok(self.accept(buf))
     }
+    /// a real vectored write: takes bytes from as many of the buffers as fit into `max`, so a short
+    /// count can end inside any of them
+    fn write_vectored(&mut self, bufs: &[io::IoSlice<'_>]) -> io::Result<usize> {
+        self.calls += 1;
+        let total: usize = bufs.iter().map(|b| b.len()).sum();
+        let mut left = self.max;
+        for b in bufs {
+            let n = b.len().min(left);
+            self.out.extend_from_slice(&b[..n]);
+            left -= n;
+            if left == 0 {
+                break;
+            }
+        }
+        let n = self.max - left;
+        if n < total {
+            self.short += 1;
+        }
+        Ok(n)
+    }
     fn flush(&mut self) -> io::Result<()> {
         Ok(())
     }
